@@ -17,6 +17,9 @@ RULE = (
     "samples, 3 relative offsets, baseline fraction) -> find_hits -> find_peaks -> sum_waveform with a small waveform buffer "
     "(forcing down-sampling): peak area == sum of its hits' contributions per channel, waveform integral == area whenever no "
     "sample is truncated. merge_peaks over every consecutive index range, replace_merged, split_peaks (local minimum) tiling; "
+    "merge_peaks on synthetic peak rows (4-5 peaks, lengths {1,3}, gaps {0,1,4,7}, thorough also mixed dt) for every selection of "
+    "one or two disjoint index ranges in ONE call (the scratch buffers are shared between the merges of a call): merged time / "
+    "length / dt / data / data_top against the defining lay-out-and-down-sample reference, area / n_hits sums; "
     "symmetric_moving_average / index_of_fraction / compute_center_time / compute_widths vs defining formulas on every waveform "
     "of <=7 samples over {0,1,2,3}. non-trivial: >=2 hits resp. a waveform with >=2 distinct values; distinct by input."
 )
@@ -318,6 +321,108 @@ def job_sum(res, shard, nshards, tier, seed):
     res.sample(dict(sub="sum_waveform", wa=(3, 3, 0, 0, 3, 0), wb=(0, 3, 0, 3, 3, 3), offset=2), cap=1)
 
 
+# ------------------------------------------------------------------ merge_peaks on synthetic peak rows (several merges per call)
+MM_GAPS = (0, 1, 4, 7)
+MM_LENS = (1, 3)
+
+
+def mm_peaks(lens, gaps, dts):
+    n = len(lens)
+    p = np.zeros(n, PDT)
+    t = 100
+    for i in range(n):
+        p[i]["time"], p[i]["dt"], p[i]["length"] = t, dts[i], lens[i]
+        p[i]["data"][: lens[i]] = [(i + 1) * 10 + k + 1 for k in range(lens[i])]
+        p[i]["data_top"][: lens[i]] = p[i]["data"][: lens[i]] * 0.25
+        p[i]["area"] = p[i]["data"][: lens[i]].sum()
+        p[i]["area_per_channel"] = [p[i]["area"] * 0.75, p[i]["area"] * 0.25]
+        p[i]["n_hits"] = i + 1
+        p[i]["max_diff"], p[i]["min_diff"] = 5 + i, 3 + i
+        t += lens[i] * dts[i] + (gaps[i] if i < n - 1 else 0)
+    return p
+
+
+def mm_reference(sl):
+    """merged waveform by definition: constituents laid out on the common time base, then down-sampled by an integer factor to
+    fit the peak's waveform buffer (truncating a fractional last sample)"""
+    common = int(np.gcd.reduce(sl["dt"].astype(np.int64)))
+    t0 = int(sl[0]["time"])
+    L = (int(strax.endtime(sl[-1])) - t0) // common
+    out = {}
+    for f in ("data", "data_top"):
+        buf = np.zeros(L, np.float64)
+        for q in sl:
+            up = int(q["dt"]) // common
+            i0 = (int(q["time"]) - t0) // common
+            buf[i0 : i0 + int(q["length"]) * up] = np.repeat(q[f][: q["length"]].astype(np.float64), up) / up
+        ns = len(sl[0]["data"])
+        fac = int(np.ceil(L / ns))
+        nl = L // fac if fac > 1 else L
+        out[f] = buf[: nl * fac].reshape(-1, fac).sum(axis=1) if fac > 1 else buf
+        out["length"], out["dt"] = nl, common * fac
+    return out
+
+
+def range_sets(n):
+    """all selections of 1 or 2 disjoint index ranges [i,j) with >= 2 peaks each"""
+    rs = [(i, j) for i in range(n) for j in range(i + 2, n + 1)]
+    for r in rs:
+        yield (r,)
+    for a in rs:
+        for b in rs:
+            if a[1] <= b[0]:
+                yield (a, b)
+
+
+def check_merge_multi(res, lens, gaps, dts):
+    case = dict(sub="merge_multi", lens=lens, gaps=gaps, dts=dts)
+    peaks = mm_peaks(lens, gaps, dts)
+    for rsel in range_sets(len(lens)):
+        res.evals += 1
+        try:
+            m = strax.merge_peaks(peaks, np.array([r[0] for r in rsel]), np.array([r[1] for r in rsel]), max_buffer=64)
+        except Exception as e:
+            res.violation(f"merge_peaks:raised:{type(e).__name__}", str(e)[:200], dict(case, ranges=rsel))
+            return
+        for (i, j), mp in zip(rsel, m):
+            sl = peaks[i:j]
+            ref = mm_reference(sl)
+            if int(mp["time"]) != int(sl[0]["time"]) or int(mp["length"]) != ref["length"] or int(mp["dt"]) != ref["dt"]:
+                res.violation("merge_peaks:geometry", f"ranges {rsel}: merged [{i},{j}) has time/length/dt {mp['time']}/{mp['length']}/{mp['dt']}, expected {sl[0]['time']}/{ref['length']}/{ref['dt']}", dict(case, ranges=rsel))
+                return
+            for f in ("data", "data_top"):
+                if not close(mp[f][: mp["length"]], ref[f]) or np.any(mp[f][mp["length"] :] != 0):
+                    which = "only merge in the call" if len(rsel) == 1 else f"merge {rsel.index((i, j)) + 1} of 2 in one call"
+                    res.violation(f"merge_peaks:waveform:{f}:{'single' if len(rsel) == 1 else 'multi'}", f"ranges {rsel}: {f} of merged [{i},{j}) ({which}) is {mp[f][:mp['length']].tolist()}, expected {ref[f].tolist()}", dict(case, ranges=rsel))
+                    return
+            if not close(mp["area"], sl["area"].sum()) or not close(mp["area_per_channel"], sl["area_per_channel"].sum(axis=0)) or int(mp["n_hits"]) != int(sl["n_hits"].sum()):
+                res.violation("merge_peaks:area", f"ranges {rsel}: merged [{i},{j}) area {mp['area']}", dict(case, ranges=rsel))
+                return
+            if ref["length"] * ref["dt"] == int(strax.endtime(sl[-1])) - int(sl[0]["time"]) and not close(mp["data"][: mp["length"]].sum(), mp["area"]):
+                res.violation("merge_peaks:integral", f"ranges {rsel}: merged [{i},{j}) integrates to {mp['data'][:mp['length']].sum()}, area {mp['area']}", dict(case, ranges=rsel))
+                return
+            if ref["dt"] > int(np.gcd.reduce(sl["dt"].astype(np.int64))):
+                res.count("merge_downsampled")
+        if len(rsel) == 2:
+            res.count("merge_two_ranges")
+
+
+def job_merge_multi(res, n, shard, nshards, tier):
+    k = -1
+    dt_menus = [(1,) * n, tuple((1, 2)[i % 2] for i in range(n))] if tier == "thorough" else [(1,) * n]
+    for lens in itertools.product(MM_LENS, repeat=n):
+        for gaps in itertools.product(MM_GAPS, repeat=n - 1):
+            k += 1
+            if k % nshards != shard:
+                continue
+            for dts in dt_menus:
+                res.nt("mm", lens, gaps, dts)
+                check_merge_multi(res, lens, gaps, dts)
+    res.sample(dict(sub="merge_multi", lens=(3, 3, 3, 1), gaps=(7, 0, 7), ranges=((0, 2), (2, 4))), cap=1)
+
+
+
+
 # ------------------------------------------------------------------ helpers
 def job_helpers(res, L, shard, nshards):
     k = -1
@@ -389,6 +494,8 @@ def plan(tier, seed):
     for n, G, ns in fp:
         jobs += [("fp", n, G, s, ns) for s in range(ns)]
     jobs += [("sum", s, NS, tier, seed) for s in range(NS)]
+    jobs += [("mm", 4, s, 4, tier) for s in range(4)]
+    jobs += [("mm", 5, s, 16, tier) for s in range(16)] if tier == "thorough" else []
     for L, ns in helpers:
         jobs += [("helpers", L, s, ns) for s in range(ns)]
     return jobs
@@ -402,6 +509,8 @@ def run_job(job):
             job_find_peaks(res, *job[1:])
         elif job[0] == "sum":
             job_sum(res, *job[1:])
+        elif job[0] == "mm":
+            job_merge_multi(res, *job[1:])
         else:
             job_helpers(res, *job[1:])
     res.count("cases_" + job[0], res.evals)
@@ -416,6 +525,8 @@ def replay(case):
         warnings.simplefilter("ignore")
         if s == "find_peaks":
             check_find_peaks(res, tup(case["iv"]), tup(case["chans"]), case["gap"], case["le"], case["re"], case["max_duration"])
+        elif s == "merge_multi":
+            check_merge_multi(res, tup(case["lens"]), tup(case["gaps"]), tup(case["dts"]))
         elif s in ("sum_waveform", "merge_split"):
             out = check_sum(res, tup(case["wa"]), tup(case["wb"]), case["off"], case["blf"], case["gap"], case["le"], case["re"])
             if out is not None and s == "merge_split":
@@ -439,3 +550,5 @@ def sanity(total, tier):
         return "down-sampling was hardly exercised"
     if total.counters.get("splits", 0) < 10:
         return "peak splitting hardly happened"
+    if total.counters.get("merge_two_ranges", 0) < 100 or total.counters.get("merge_downsampled", 0) < 100:
+        return "multi-range / down-sampled merges hardly exercised"
